@@ -34,6 +34,9 @@ def rich_source(rng):
         parts.insert(rng.randrange(0, len(parts) + 1), rng.choice(["TrackName", "Lyric", "Text", "Copyright"]) + "={" + ch * (n // len(ch.encode("utf-8")) + 1) + "}")
     if rng.random() < 0.1:
         parts.insert(rng.randrange(0, len(parts) + 1), "SysEx$=f0," + ",".join("%02x" % rng.randint(0, 127) for _ in range(rng.choice([5, 126, 127, 128, 200]))) + ",f7;")
+    if rng.random() < 0.15:
+        # a track beyond the sixteen channels, on its default channel: every status byte still names a channel 0..15
+        parts.insert(0, rng.choice(["TR=%d", "TR(%d)", "Track(%d)"]) % rng.choice([16, 17, 18, 20, 33, 100]))
     return " ".join(parts)
 
 def streams(tier, rng, P, only=None, cases=None):
